@@ -5,6 +5,7 @@ package main
 // (status code per request, stalls, refused connections), every mode, with and without sampling.
 
 import (
+	"bufio"
 	"fmt"
 	"io"
 	"math/rand"
@@ -62,6 +63,37 @@ func (s *vfN2HStub) ServeHTTP(w http.ResponseWriter, r *http.Request) {
 	}
 }
 
+// serveHang is the "dead" destination (audit round 7, C31: no request is reconstructed any more): a raw
+// listener that reads the request, records it like any other endpoint (status "x") and hangs up without an
+// answer, so the tool gets a transport error for a request the harness has *seen*.
+func (s *vfN2HStub) serveHang(ln net.Listener) {
+	for {
+		c, err := ln.Accept()
+		if err != nil {
+			return
+		}
+		go func(c net.Conn) {
+			defer c.Close()
+			c.SetDeadline(time.Now().Add(5 * time.Second))
+			r, err := http.ReadRequest(bufio.NewReader(c))
+			if err != nil {
+				return
+			}
+			var k int
+			fmt.Sscanf(r.URL.Path, "/a%d", &k)
+			var body []byte
+			if r.Method == "POST" {
+				body, _ = io.ReadAll(r.Body)
+			} else {
+				body = []byte(r.URL.Query().Get("d"))
+			}
+			s.mu.Lock()
+			s.seen = append(s.seen, vfN2HReq{k, body, "x"})
+			s.mu.Unlock()
+		}(c)
+	}
+}
+
 type vfN2HRec struct{ got []string }
 
 func (r *vfN2HRec) OnFinish(m *nsq.Message) { r.got = append(r.got, "fin") }
@@ -78,10 +110,11 @@ func TestVerifN2HCorr(t *testing.T) {
 	stub := &vfN2HStub{script: map[int]string{}, release: make(chan struct{})}
 	srv := httptest.NewServer(stub)
 	defer srv.Close()
-	// an address nobody listens on (transport error)
+	// the "dead" address: a listener that reads the request and hangs up (transport error, request seen)
 	dl, _ := net.Listen("tcp", "127.0.0.1:0")
 	deadHost := dl.Addr().String()
-	dl.Close()
+	defer dl.Close()
+	go stub.serveHang(dl)
 	httpclient = &http.Client{Timeout: 150 * time.Millisecond}
 	hist := map[string]int{}
 	fails := 0
@@ -129,6 +162,23 @@ func TestVerifN2HCorr(t *testing.T) {
 		}
 		ph := &PublishHandler{Publisher: pub, addresses: addrs, mode: mode, hostPool: hp, perAddressStatus: perAddr,
 			timermetrics: timer_metrics.NewTimerMetrics(0, "")}
+		// audit round 7, C31: the response rule is go-nsq's own — the handler sits behind a real Consumer built as
+		// main() builds it, fed by a source stub nsqd; the FIN / REQ is read off the wire of the source connection
+		src := vfNewStubNsqd()
+		ccfg := nsq.NewConfig()
+		ccfg.MaxInFlight = *maxInFlight
+		consumer, cerr := nsq.NewConsumer("t", "nsq_to_http", ccfg)
+		if cerr != nil {
+			t.Fatal(cerr)
+		}
+		consumer.SetLoggerLevel(nsq.LogLevelMax)
+		consumer.AddConcurrentHandlers(ph, 1)
+		if err := consumer.ConnectToNSQD(src.addr); err != nil {
+			t.Fatal(err)
+		}
+		for i := 0; i < 2500 && !src.Subscribed(); i++ {
+			time.Sleep(2 * time.Millisecond)
+		}
 		for k := 0; k < n/nseg; k++ {
 			id++
 			body := r.Bytes(r.Intn(24))
@@ -166,19 +216,25 @@ func TestVerifN2HCorr(t *testing.T) {
 			draw := rand.Float64()
 			rand.Seed(seed)
 			sampledOut := *sample < 1.0 && draw > *sample
-			var mid nsq.MessageID
-			copy(mid[:], fmt.Sprintf("%d", id))
-			m := nsq.NewMessage(mid, body)
-			rec := &vfN2HRec{}
-			m.Delegate = rec
 			counter := atomic.LoadUint64(&ph.counter)
-			err := ph.HandleMessage(m)
-			if err != nil { // go-nsq Consumer.handlerLoop
-				if !m.IsAutoResponseDisabled() {
-					m.Requeue(-1)
+			rec := &vfN2HRec{}
+			select {
+			case extra := <-src.Resp:
+				fail(fmt.Sprintf("a second response for message %d: %s", id-1, extra))
+			default:
+			}
+			src.Deliver(fmt.Sprintf("%016d", id), 1, body)
+			select {
+			case resp := <-src.Resp:
+				switch w := strings.Fields(resp); {
+				case len(w) == 2 && w[0] == "FIN" && w[1] == fmt.Sprintf("%016d", id):
+					rec.got = append(rec.got, "fin")
+				case len(w) == 3 && w[0] == "REQ" && w[1] == fmt.Sprintf("%016d", id):
+					rec.got = append(rec.got, "req")
+				default:
+					rec.got = append(rec.got, "other:"+resp)
 				}
-			} else if !m.IsAutoResponseDisabled() {
-				m.Finish()
+			case <-time.After(60 * time.Second):
 			}
 			if stalls > 0 {
 				stub.mu.Lock()
@@ -193,44 +249,11 @@ func TestVerifN2HCorr(t *testing.T) {
 			stub.mu.Lock()
 			seen := append([]vfN2HReq{}, stub.seen...)
 			stub.mu.Unlock()
-			// requests in the order made; a request to the dead address is not seen by the stub:
-			// reconstruct it from the mode (mode all: first address not seen before the error)
+			// requests in the order made, every one of them seen by a stub endpoint
 			var evs []string
 			pick := 0
 			finished := rec.got[0] == "fin"
-			reqs := []vfN2HReq{}
-			reqs = append(reqs, seen...)
-			if !finished && !sampledOut {
-				expect := -1
-				switch mode {
-				case ModeAll:
-					if len(seen) < naddr && (len(seen) == 0 || seen[len(seen)-1].addr != deadIdx) {
-						// did the last seen request fail, or was the next one the dead address?
-						if len(seen) == deadIdx {
-							ok := true
-							for _, q := range seen {
-								if !vfN2HAccept(post, q.status) {
-									ok = false
-								}
-							}
-							if ok {
-								expect = deadIdx
-							}
-						}
-					}
-				case ModeRoundRobin:
-					if len(seen) == 0 {
-						expect = int((counter + 1) % uint64(naddr))
-					}
-				case ModeHostPool:
-					if len(seen) == 0 {
-						expect = deadIdx
-					}
-				}
-				if expect >= 0 {
-					reqs = append(reqs, vfN2HReq{expect, body, "x"})
-				}
-			}
+			reqs := append([]vfN2HReq{}, seen...)
 			for i, q := range reqs {
 				acc := 1
 				if i == len(reqs)-1 && !finished {
@@ -261,8 +284,8 @@ func TestVerifN2HCorr(t *testing.T) {
 				}
 			} else {
 				evs = append(evs, fmt.Sprintf("req:%d", id))
-				if rec.got[0] != "req(-1,true)" {
-					fail("requeue is not Requeue(-1): " + rec.got[0])
+				if rec.got[0] != "req" {
+					fail(fmt.Sprintf("message %d answered with %s", id, rec.got[0]))
 				}
 			}
 			b2i := func(b bool) int {
@@ -280,6 +303,8 @@ func TestVerifN2HCorr(t *testing.T) {
 				hist["sampled-out"]++
 			}
 		}
+		consumer.Stop()
+		src.Down()
 	}
 	keys := []string{}
 	for k := range hist {
@@ -313,7 +338,7 @@ func TestVerifN2HGiveUp(t *testing.T) {
 	defer srv.Close()
 	httpclient = &http.Client{Timeout: 2 * time.Second}
 	*sample = 1.0
-	for _, attempts := range []uint16{1, 5, 6, 9} {
+	for _, attempts := range vfGiveUpAttempts("nsq_to_http", []uint16{1, 5, 6, 9}) {
 		src := vfNewStubNsqd()
 		cfg := nsq.NewConfig() // as in main()
 		cfg.MaxInFlight = *maxInFlight
